@@ -70,7 +70,7 @@ def generate(rng, tier):
         out.append({"flat": flat, "nested": nested})
     # a leaf whose own clean/cease/abort/exit context raises (outside the Coq model: decided by the pair oracle alone):
     # grouping must not change which doers are exited nor in which order
-    for flat in sc.gen_hookraise(rng, 60 * n, nest_depths=(0,)):
+    for flat in sc.gen_hookraise(rng, 240 * n, nest_depths=(0,)):
         flat["mode"] = "do"
         if c03.asap_then_positive(flat, only_nested=False):
             continue
@@ -80,6 +80,8 @@ def generate(rng, tier):
         hd = next(d for d in flat["defs"].values() if d.get("hookraise"))
         if not (flat["limit"] and hd["hookraise"] in ("cease", "exit")):
             continue
+        if rng.random() < 0.5:
+            hd["hookexc"] = "kbd"       # half of them raise a BaseException that is not an Exception
         out.append({"flat": flat, "nested": group(rng, flat, depth=rng.choice([1, 2, 3]))})
     out += _gen_remove_pairs(rng, 60 * n)
     return out
